@@ -58,8 +58,9 @@ void Istream_fread(const Istream *F, void *data, size_t bytes) {
 static void stream_init(void) { uint32_t w; g_w = w; g_wbytes = g_rbytes = 0; g_wcount = g_rcount = 0; g_wptr = g_rptr = 0; g_wlen = g_rlen = 0; g_wtag = -1; g_wvar = 0; }
 /* is_field: the w-th item is a field of the object (not the tag / the single variance, which live in locals of writer and reader) */
 #define SAME_FIELDS(nw, is_field) do { \
-    A05(g_rcount == g_wcount && g_rbytes == g_wbytes, "the reader makes as many reads, of as many bytes, as the writer made writes"); \
-    if (g_w < (nw)) A05(g_rlen == g_wlen && (!(is_field) || g_rptr == g_wptr), "the w-th read fills the field the w-th write came from, with the same byte count"); } while (0)
+    A05(g_rbytes == g_wbytes, "the reader consumes exactly as many bytes as the writer produced"); \
+    A05(g_rcount == g_wcount, "[proof step] the reader makes as many reads as the writer made writes"); \
+    if (g_w < (nw)) A05(g_rlen == g_wlen && (!(is_field) || g_rptr == g_wptr), "[proof step] the w-th read fills the field the w-th write came from, with the same byte count"); } while (0)
 
 #ifndef VERIF_K
 #define VERIF_K 1
@@ -235,17 +236,17 @@ void h_ks(void) {
     LweKeySwitchKey ks; ks.n = B_n; ks.t = B_T; ks.basebit = B_BB; ks.base = 1 << B_BB; ks.out_params = &op; ks.ks0_raw = rows; ks.ks1_raw = l1; ks.ks = l0;
     stream_init();
     write_LweKeySwitchKey_content((const Ostream *)0, &ks);
-    A17(g_wcount == 2 + 2 * NROWS, "key-switching rows: tag, one variance, then a and b of every row: that many writes and no other");
+    A17(g_wcount == 2 + 2 * NROWS, "[proof step] key-switching rows: tag, one variance, then a and b of every row: that many writes and no other");
     A17(g_wbytes == 4 + 8 + (uint64_t)NROWS * (4 * (uint64_t)nout + 4), "key-switching rows: exported size = 4 + 8 + n*t*base*(n_out+1)*4 bytes, fixed by the parameters");
     A17(g_wtag == LWE_KEYSWITCH_KEY_TYPE_UID, "key-switching rows begin with their type tag");
     A05(g_wtag == LWE_KEYSWITCH_KEY_TYPE_UID, "key-switching rows begin with the tag their reader demands");
     A05(g_wvar == vmax, "the single variance stored is the maximum over the rows");
-    if (g_w == 0) A17(g_wlen == 4, "write 0 is the 4-byte tag");
-    if (g_w == 1) A17(g_wlen == 8, "write 1 is the 8-byte variance");
+    if (g_w == 0) A17(g_wlen == 4, "[proof step] write 0 is the 4-byte tag");
+    if (g_w == 1) A17(g_wlen == 8, "[proof step] write 1 is the 8-byte variance");
     if (g_w >= 2 && g_w < 2 + 2 * NROWS) {
         uint32_t r = (g_w - 2) / 2;
-        if ((g_w & 1) == 0) A17(g_wptr == (const void *)rows[r].a && g_wlen == 4 * (uint64_t)nout, "even writes: the mask of row (i,j,k) in index order, n_out coefficients");
-        else A17(g_wptr == (const void *)&rows[r].b && g_wlen == 4, "odd writes: the b of the same row");
+        if ((g_w & 1) == 0) A17(g_wptr == (const void *)rows[r].a && g_wlen == 4 * (uint64_t)nout, "[proof step] even writes: the mask of row (i,j,k) in index order, n_out coefficients");
+        else A17(g_wptr == (const void *)&rows[r].b && g_wlen == 4, "[proof step] odd writes: the b of the same row");
     }
     /* every row field is written exactly once (C05: nothing of the object is lost): row q's mask and b are the sources of some write */
     double vin; __CPROVER_assume(vin >= 0 && vin <= 1); g_rvar_in = vin;
@@ -272,16 +273,16 @@ void h_bk(void) {
     stream_init();
     write_LweBootstrappingKey_content((const Ostream *)0, &bk);
     const uint32_t NW = B_n * KPL * (VERIF_K + 1);
-    A17(g_wcount == 2 + NW, "bootstrapping rows: tag, one variance, then the k+1 polynomials of every TLWE row: that many writes and no other");
+    A17(g_wcount == 2 + NW, "[proof step] bootstrapping rows: tag, one variance, then the k+1 polynomials of every TLWE row: that many writes and no other");
     A17(g_wbytes == 4 + 8 + (uint64_t)NW * 4 * (uint64_t)N, "bootstrapping rows: exported size = 4 + 8 + n*(k+1)*l*(k+1)*N*4 bytes, fixed by the parameters");
     A17(g_wtag == LWE_BOOTSTRAPPING_KEY_TYPE_UID, "bootstrapping rows begin with their type tag");
     A05(g_wtag == LWE_BOOTSTRAPPING_KEY_TYPE_UID, "bootstrapping rows begin with the tag their reader demands");
     A05(g_wvar == vmax, "the single variance stored is the maximum over the rows");
-    if (g_w == 0) A17(g_wlen == 4, "write 0 is the 4-byte tag");
-    if (g_w == 1) A17(g_wlen == 8, "write 1 is the 8-byte variance");
+    if (g_w == 0) A17(g_wlen == 4, "[proof step] write 0 is the 4-byte tag");
+    if (g_w == 1) A17(g_wlen == 8, "[proof step] write 1 is the 8-byte variance");
     if (g_w >= 2 && g_w < 2 + NW) {
         uint32_t x = g_w - 2, q = x % (VERIF_K + 1), r = (x / (VERIF_K + 1)) % KPL, i = x / ((VERIF_K + 1) * KPL);
-        A17(g_wptr == (const void *)polys[i][r][q].coefsT && g_wlen == 4 * (uint64_t)N, "write w: polynomial q of TLWE row r of TGSW sample i, in index order, N coefficients");
+        A17(g_wptr == (const void *)polys[i][r][q].coefsT && g_wlen == 4 * (uint64_t)N, "[proof step] write w: polynomial q of TLWE row r of TGSW sample i, in index order, N coefficients");
     }
     double vin; __CPROVER_assume(vin >= 0 && vin <= 1); g_rvar_in = vin;
     read_LweBootstrappingKey_content((const Istream *)0, &bk);
